@@ -67,11 +67,23 @@ class _ACArray(np.ndarray, abc.Mapping):
     @doc_inherit(np.ndarray.__getitem__)
     def __getitem__(self, k):
         try:
-            if k in self:
+            # only a single label selects data: masks, lists and slices are
+            # positional, as in any array
+            if np.ndim(k) == 0 and not isinstance(k, slice) and k in self:
                 return self._skc_slicer(k).copy()
             return super().__getitem__(k)
         except IndexError:
             raise IndexError(k)
+
+    def __iter__(self):
+        """Iterate over the labels themselves.
+
+        The default ndarray iteration goes through ``__getitem__`` with the
+        positions, which resolves an integer label equal to a position to the
+        sliced data instead of the label.
+
+        """
+        return iter(np.asarray(self))
 
     def __setitem__(self, k, v):
         """Raise an AttributeError, this object are read-only."""
